@@ -15,7 +15,7 @@ BUDGET = {"quick": 280, "thorough": 2700}
 
 
 def configs(tier):
-    cs = [Config(levels=2, ndisks=2), Config(levels=1, ndisks=3)]
+    cs = [Config(levels=2, ndisks=2), Config(levels=1, ndisks=3, uuid=True)]
     if tier == "thorough":
         cs += [Config(levels=3, ndisks=3, hashkind="spooky2"), Config(levels=2, ndisks=2, hashsize=8, splits={0: 2, 1: 2}, parity_limit=4096)]
     return cs
@@ -39,7 +39,11 @@ def variants(cfg, tier):
          # a hash migration scheduled and not completed
          ("rehash-pending", [("cmd", "rehash")]),
          # a synced file replaced by a NEW file of the same block length on the same positions, parity still describing the old one
-         ("replaced-not-yet-in-parity", [("rm", "d2", "K"), ("write", "d2", "K2", 700, 0), ("cmd", "sync", "-S", "1")])]
+         ("replaced-not-yet-in-parity", [("rm", "d2", "K"), ("write", "d2", "K2", 700, 0), ("cmd", "sync", "-S", "1")]),
+         # a new file whose sync was killed after the parity update (recorded CHG, parity already holding it), rewritten since, and a
+         # later range-limited sync that saved the state without reaching its stripes
+         ("killed-after-parity-rewritten", [("write", "d2", "B", 900, 0), ("cmd", "sync", "--test-kill-after-sync"),
+                                            ("write", "d2", "B", 900, 1), ("cmd", "sync", "-B", "1")])]
     if tier == "thorough":
         v += [("copy-partly-synced", [("cp", "d1", "dir/M", "d2", "dir/M"), ("cmd", "sync", "-B", "1")]),
               ("killed-after-parity", [("write", "d2", "B", 900, 0), ("cmd", "sync", "--test-kill-after-sync")])]
